@@ -78,18 +78,33 @@ def renameT (m : List (Str × Str)) : Term → Term
 def renameQ (m : List (Str × Str)) (q : Quad) : Quad :=
   ⟨renameT m q.s, q.p, renameT m q.o, q.g.map (renameT m)⟩
 
-/-- occurrences of a label as subject / object / graph name -/
-def sig (b : Str) (qs : List Quad) : Nat × Nat × Nat :=
-  ((qs.filter (fun q => q.s == .bnode b)).length,
-   (qs.filter (fun q => q.o == .bnode b)).length,
-   (qs.filter (fun q => q.g == some (.bnode b))).length)
+/-- label-independent signature of a label: its occurrences, the other labels masked, sorted -/
+def sig (b : Str) (qs : List Quad) : List String :=
+  let mask : Term → String := fun t =>
+    match t with
+    | .bnode x => if x == b then "@" else "*"
+    | t => t.render
+  sortStrs ((qs.filter (fun q => (quadLabels q).contains b)).map (fun q =>
+    mask q.s ++ " " ++ q.p.render ++ " " ++ mask q.o ++ " " ++ (match q.g with | some g => mask g | none => "-")))
 
-def isoGo (a b : List Quad) : List Str → List Str → List (Str × Str) → Bool
-  | [], _, m => a.all (fun q => b.contains (renameQ m q))
-  | x :: xs, avail, m =>
-    avail.any (fun y => sig x a == sig y b && isoGo a b xs (avail.erase y) ((x, y) :: m))
+/-- backtracking over signature-compatible bijections; `bud` = remaining node budget,
+`none` = budget exhausted (no verdict) -/
+def isoSearch (a b : List Quad) (sa sb : List (Str × List String)) :
+    (todo : List Str) → (cands : List Str) → (avail : List Str) → List (Str × Str) → Nat → Option Bool × Nat
+  | [], _, _, m, bud =>
+    if bud == 0 then (none, 0) else (some (a.all (fun q => b.contains (renameQ m q))), bud - 1)
+  | _ :: _, [], _, _, bud => (some false, bud)
+  | x :: xs, y :: ys, avail, m, bud =>
+    if bud == 0 then (none, 0) else
+    if sa.lookup x == sb.lookup y then
+      match isoSearch a b sa sb xs (avail.erase y) (avail.erase y) ((x, y) :: m) (bud - 1) with
+      | (some false, bud') => isoSearch a b sa sb (x :: xs) ys avail m bud'
+      | r => r
+    else isoSearch a b sa sb (x :: xs) ys avail m bud
+termination_by todo cands => (todo.length, cands.length)
 
-/-- `none` = too many blank nodes for the brute force -/
+/-- `none` = more than 16 blank nodes / search budget exhausted: no verdict (the model's `rt` is only a prediction to
+compare with; the property's oracle is the harness' own exact test on the real output) -/
 def iso (a b : List Quad) : Option Bool :=
   let a := a.eraseDups
   let b := b.eraseDups
@@ -97,8 +112,11 @@ def iso (a b : List Quad) : Option Bool :=
   let la := labelsOf a
   let lb := labelsOf b
   if la.length != lb.length then some false else
-  if la.length > 9 then none else
-  some (isoGo a b la lb [])
+  if la.length > 16 then none else
+  let sa := la.map (fun x => (x, sig x a))
+  let sb := lb.map (fun x => (x, sig x b))
+  if sortStrs (sa.map (fun p => "|".intercalate p.2)) != sortStrs (sb.map (fun p => "|".intercalate p.2)) then some false else
+  (isoSearch a b sa sb la lb lb [] 30000).1
 
 /-! requests -/
 
